@@ -319,7 +319,11 @@ impl<T: ClusterKey> Behaviour<T> {
         ) {
             Ok(encoded) => {
                 #[cfg(feature = "verif")]
-                crate::verif::published(OWNERSHIP_TOPIC, &encoded);
+                crate::verif::published(
+                    self.manager.local_cluster_ref.id().peer_id().copied(),
+                    OWNERSHIP_TOPIC,
+                    &encoded,
+                );
                 if let Err(err) = self.gossipsub.publish(self.ownership_topic.hash(), encoded)
                     && !matches!(err, PublishError::NoPeersSubscribedToTopic)
                 {
@@ -342,7 +346,11 @@ impl<T: ClusterKey> Behaviour<T> {
         );
 
         #[cfg(feature = "verif")]
-        crate::verif::published(HEARTBEAT_TOPIC, &self.heartbeat_bytes);
+        crate::verif::published(
+            self.manager.local_cluster_ref.id().peer_id().copied(),
+            HEARTBEAT_TOPIC,
+            &self.heartbeat_bytes,
+        );
         if let Err(err) = self
             .gossipsub
             .publish(self.heartbeat_topic.hash(), self.heartbeat_bytes.clone())
